@@ -173,6 +173,10 @@ class Interp:
                 if stable or key not in self.recursed:
                     break
             self.recursed.discard(key)
+            if isinstance(result, Top):
+                # the repository type-checks: fall back on the declared return type
+                result = self.summary(f)
+                self.memo[key] = result
             return result
         finally:
             self.active.pop()
